@@ -254,14 +254,39 @@ def run(R):
     ip = ctx(R, NM + '.is_prefix')
     src = strip_doc(ip.f.node)
     inst = ip.qual
-    if 'lhs = normalize(lhs)' in src and 'rhs = normalize(rhs)' in src and 'left_len <= len(rhs) and lhs == rhs[:left_len]' in src and 'left_len = len(lhs)' in src:
-        R.ok('C09.SIB.3', inst, ip.f.loc())
-    elif 'normalize(lhs)' not in src or 'normalize(rhs)' not in src:
-        R.fail('C09.SIB.3', inst, ip.qual, 'def is_prefix', 'is_prefix does not normalise both names before comparing', ip.f.loc())
-    elif 'rhs[:left_len]' in src and 'left_len <= len(rhs)' not in src and 'len(lhs) <= len(rhs)' not in src:
-        R.fail('C09.SIB.3', inst, ip.qual, 'def is_prefix', 'is_prefix compares a slice without bounding it by the length of the longer name', ip.f.loc())
+    params = [a.arg for a in ip.f.node.args.args]
+    rets = returns(ip)
+    R.need(len(params) == 2 and rets, 'Name.is_prefix: two parameters and a return expected')
+    probs = []
+    for r in rets:
+        for p_ in params:
+            if not any(isinstance(x, ast.Name) and x.id == p_ for x in ast.walk(r.ast.value)):
+                continue
+            for (d, v) in ip.cfg.defs_reaching(r, p_):
+                if not (isinstance(v, ast.Call) and ast.unparse(v.func).rsplit('.', 1)[-1] == 'normalize' and len(v.args) == 1
+                        and isinstance(v.args[0], ast.Name) and v.args[0].id == p_):
+                    what = 'the raw argument' if isinstance(v, tuple) else f'`{ast.unparse(v)}`'
+                    probs.append((r.ast, f'`{p_}` can reach the comparison as {what} instead of normalize({p_}): the component-wise comparison is then made '
+                                         'on something that is not a list of components'))
+    if not probs:
+        txt = {norm(r.ast) for r in rets}
+        d1 = {nm: v for n in ip.cfg.nodes for (nm, v) in ip.cfg.defs_of(n) if isinstance(v, ast.AST)}
+        bounded = all(any(isinstance(c, ast.Compare) and len(c.ops) == 1 and isinstance(c.ops[0], (ast.LtE,)) and
+                          ast.unparse(c.comparators[0]) == f'len({params[1]})' and
+                          (ast.unparse(c.left) == f'len({params[0]})' or (isinstance(c.left, ast.Name) and ast.unparse(d1.get(c.left.id, c.left)) == f'len({params[0]})'))
+                          for c in ast.walk(r.ast.value)) for r in rets)
+        sliced = all(any(isinstance(c, ast.Compare) and isinstance(c.ops[0], ast.Eq) and ast.unparse(c.left) == params[0] and
+                         isinstance(c.comparators[0], ast.Subscript) and isinstance(c.comparators[0].slice, ast.Slice) and c.comparators[0].slice.lower is None
+                         for c in ast.walk(r.ast.value)) for r in rets)
+        if not sliced:
+            raise AnalysisError(f'Name.is_prefix: unrecognised comparison {sorted(txt)} (cannot decide C09.SIB.3)')
+        if not bounded:
+            probs.append((rets[0].ast, 'is_prefix compares a slice without bounding it by the length of the longer name'))
+    if probs:
+        for (c, what) in probs:
+            R.fail('C09.SIB.3', inst, ip.qual, c, what, ip.f.loc())
     else:
-        raise AnalysisError('Name.is_prefix: unrecognised shape (cannot decide C09.SIB.3)')
+        R.ok('C09.SIB.3', inst, ip.f.loc())
     el, en = ctx(R, NM + '.encoded_length'), ctx(R, NM + '.encode')
 
     def defs1(cx):
